@@ -15,6 +15,7 @@ import (
 	"github.com/apmckinlay/gsuneido/util/assert"
 	"github.com/apmckinlay/gsuneido/util/cache"
 	"github.com/apmckinlay/gsuneido/util/cksum"
+	"github.com/apmckinlay/gsuneido/util/verif"
 )
 
 type DbState struct {
@@ -79,6 +80,9 @@ func (sh *stateHolder) updateState(fn func(*DbState)) {
 	}
 	newState := *oldState // shallow copy
 	fn(&newState)
+	if verif.On {
+		verif.Event("State", "old", oldState, "new", &newState)
+	}
 	if newState.Meta != oldState.Meta {
 		sh.set(&newState)
 	}
@@ -93,11 +97,20 @@ type mergefn func(*meta.Meta, *mergeList) []meta.MergeUpdate
 // Merge updates the base ixbuf's with the ones from transactions
 // It is called by concur.go merger.
 func (db *Database) Merge(fn mergefn, merges *mergeList) {
+	if verif.On {
+		verif.Gate("merge.begin")
+	}
 	updates := fn(db.GetState().Meta, merges) // outside UpdateState
+	if verif.On {
+		verif.Gate("merge.computed")
+	}
 	db.UpdateState(func(state *DbState) {
 		m := *state.Meta // copy
 		meta.Apply(&m, updates)
 		state.Meta = &m
+		if verif.On {
+			verif.Event("MergeApply", "n", len(updates))
+		}
 	})
 }
 
@@ -121,8 +134,14 @@ func (db *Database) persist(exec execPersist, flush bool) *DbState {
 	}
 	// fmt.Println("persist")
 	var newState *DbState
+	if verif.On {
+		verif.Gate("persist.begin")
+	}
 	db.GetState().Meta.Persist(exec.Submit) // outside UpdateState
 	updates := exec.Results()
+	if verif.On {
+		verif.Gate("persist.computed")
+	}
 	var off uint64
 	db.UpdateState(func(state *DbState) {
 		m := *state.Meta // copy
@@ -133,6 +152,9 @@ func (db *Database) persist(exec execPersist, flush bool) *DbState {
 		off = state.Write()
 		state.Off = off
 		newState = state
+		if verif.On {
+			verif.Event("PersistApply", "off", off, "n", len(updates))
+		}
 	})
 	if flush {
 		db.Store.FlushTo(off)
